@@ -62,7 +62,13 @@ type c16Witness struct {
 	Layout string    `json:"layout"`
 	Route  string    `json:"route,omitempty"` // "" = asm.Parse in process; "cli" = dev/asm <file>; "cli-pp" = dev/asm -f <flags.csv> <file>
 	Src    string    `json:"src"`             // rendered text, informational (Replay re-renders from Lines+Layout)
+	// Prev is the source handed to asm.Parse immediately before this one in the same process. Replay
+	// assembles it first: an assembler that keeps state between calls (a scratch buffer that survives a
+	// rejected source, say) emits bytes that depend on it.
+	Prev string `json:"previous_source_in_this_process,omitempty"`
 }
+
+var c16PrevSrc, c16LastSrc string
 
 // ---- printer (argument order per doc/texinfo/instructions.texi) ---------------------------------
 
@@ -383,6 +389,7 @@ func c16Assemble(src string) (out []byte, err error, pv any) {
 			pv = r
 		}
 	}()
+	c16PrevSrc, c16LastSrc = c16LastSrc, src
 	var buf bytes.Buffer
 	_, err = asm.Parse(src, &buf)
 	return buf.Bytes(), err, nil
@@ -637,6 +644,9 @@ func c16Replay(w json.RawMessage) (string, string) {
 	default:
 		return "bad-witness", "route"
 	}
+	if wit.Prev != "" && wit.Route == "" {
+		c16Assemble(wit.Prev)
+	}
 	r := c16Judge(wit.Lines, wit.Layout, wit.Route)
 	return r.Sig, r.Msg
 }
@@ -770,7 +780,7 @@ func c16Run(c *mc.Ctx) {
 			c.Count("assembled_layout_"+layout, 1)
 		}
 		if r.Sig != "" {
-			c.Fail(r.Sig, r.Msg, c16Witness{Lines: lines, Layout: layout, Route: route, Src: c16Clip(c16Render(lines, layout))})
+			c.Fail(r.Sig, r.Msg, c16Witness{Lines: lines, Layout: layout, Route: route, Src: c16Clip(c16Render(lines, layout)), Prev: c16PrevSrc})
 			c.Distinct("nontrivial", family, layout, r.Sig)
 			return
 		}
